@@ -381,7 +381,12 @@ int32 parseClientHello(ssl_t *ssl, unsigned char **cp, unsigned char *end)
                @see https://tools.ietf.org/html/rfc7507#section-3.*/
             if (cipher == TLS_FALLBACK_SCSV)
             {
-                if (ssl->peerHelloVersion < psVerGetHighestTls(GET_SUPP_VER(ssl)))
+                /* psVerGetHighestTls() ignores DTLS versions; RFC 7507 applies
+                   to DTLS as well. */
+                if (ssl->peerHelloVersion <
+                        ((ssl->peerHelloVersion & v_dtls_any) ?
+                                psVerGetHighest(GET_SUPP_VER(ssl) & v_dtls_any, 1) :
+                                psVerGetHighestTls(GET_SUPP_VER(ssl))))
                 {
                     ssl->err = SSL_ALERT_INAPPROPRIATE_FALLBACK;
                     psTraceErrr("Inappropriate version fallback\n");
